@@ -573,6 +573,7 @@ def r_named_constants(rule, root=None):
     fn = A.find_fn(TYPES, "try_from", self_ty="Axis", root=root)
     t = A.ftxt(fn["body"])
     okn = False
+    n_ok_results = sum(1 for c in A.find(fn["body"], "Call") if A.is_path(c["func"], "Ok") and len(c["args"]) == 1)
     for c in A.find(fn["body"], "Call"):
         if A.is_path(c["func"], "Ok") and len(c["args"]) == 1:
             inner = A.strip(c["args"][0])
@@ -591,10 +592,12 @@ def r_named_constants(rule, root=None):
                     else:
                         src = str(A.ftxt(nrm))
                     okn = src == "value.norm()"
+    if okn and n_ok_results > 1:
+        okn = False  # a second way to succeed (a "close enough to unit" shortcut) hands back an unnormalised vector
     if okn:
         rule.ok("Axis::try_from normalises to unit length")
     else:
-        rule.bad("Axis::try_from", "Axis::try_from must divide by the vector's norm", A.where(fn))
+        rule.bad("Axis::try_from", "Axis::try_from must divide by the vector's norm on every successful path (one Ok, of value / norm)", A.where(fn))
     # ... and `norm` is the Euclidean length (what makes value / value.norm() a unit vector)
     for ty, comps in (("Vec2", "xy"), ("Vec3", "xyz")):
         try:
